@@ -24,12 +24,53 @@ PROP = "C02"
 LEAN_PROPS = "PpciVerif/Props/C02.lean"
 LEAN_TARGETS = ["PpciVerif.Props.C02", "Drivers.C02"]
 LEVEL = "proof"
-LEVEL_TEXT = "(see end of file)"
-LEVEL_NOTE = ""
-TECHNIQUE = ""
-RULE = ""
-TRUSTED = []
-ASSUMPTIONS = []
+LEVEL_TEXT = (
+    "Lean theorems about the reference IR semantics Spec.IR (small-step, explicit frame stack, memory, external-call trace), for ALL "
+    "modules, functions, argument vectors, oracles of the external functions, configurations and fuel: (1) the SSA equation lemma "
+    "(DESIGN S6) as an invariant of execution: in every activation, every pure instruction x := op(a..) whose definition strictly "
+    "dominates the program point satisfies env x = [[op]](env a..) although x and a are re-assigned on every loop iteration "
+    "(ssa_equations_invariant; from checked facts: unique definitions, dominance table closed along edges and antisymmetric, uses "
+    "dominated); (2) verified validators (shape V) with `check m m' = true -> every defined run of m (no UB, no undefined read) is "
+    "reproduced by m' with the same return value, final global memory and external-call trace`: checkAlign (deletion of unused "
+    "side-effect-free instructions + insertion of fresh constants: DeleteUnusedInstructionsPass, insertion half of ConstantFolder; no "
+    "well-formedness assumption) and checkSubst (operands replaced by operands justified equal by the S6 equations: CSE, merged "
+    "constants, folded integer constant expressions: CommonSubexpressionEliminationPass, replace_by half of ConstantFolder), and their "
+    "composition. Every real output of those three passes is fed through the checkers on every run. For all 9 passes and api.optimize "
+    "at levels 0/1/2/s the property itself is evaluated on the real code: Spec.IR executes every entry function before and after on "
+    "argument vectors (corpus, front-end produced, generated and pessimised modules) and compares (return, globals, trace); 7 passes "
+    "have Lean models (Model.Opt) that must reproduce the real output up to renaming."
+)
+LEVEL_NOTE = (
+    "NOT proved (stated in Props/C02.lean as not shown / notes/C02.md): behaviour preservation of RemoveAddZeroPass (needs a typing "
+    "invariant), the chain rewrite (y+c1)+c2 of ConstantFolder, CJumpPass, LoadAfterStorePass, CleanPass, Mem2RegPromotor, "
+    "TailCallOptimization and the level pipelines: for these only the always-on failing-input search runs (absence of a failing input "
+    "proves nothing). The validators do not cover removal of unused alloc/literal (memory layout changes), pointer/float constant "
+    "folding, indirect-callee replacement. Trusted: Lean kernel; axioms propext/Classical.choice/Quot.sound; Spec.IR (validated "
+    "against ir2py and native x86-64, notes/IR.md); harness/irser.py + harness/c02_ir.py (text <-> ppci objects); the hand models "
+    "Model.Opt are tied by sampled correspondence, not proved equal to the Python passes; floats are executed, not reasoned about."
+)
+TECHNIQUE = ("Lean 4 proof: forward simulation with stuttering over the small-step semantics (Proofs/Opt/Align), execution invariant for "
+             "the SSA equations from checked dominance facts (Proofs/Opt/SSA), lock-step simulation for operand substitution "
+             "(Proofs/Opt/Subst); translation validation of every real pass output by the verified checkers; differential "
+             "correspondence model pass vs real pass; always-on before/after execution in the reference semantics")
+RULE = ("inputs: 23 hand-written corpus modules (every known finding, boundary shapes: critical edges, one-input phis, duplicate operand "
+        "slots, aliasing stores, memcpy between store and load, constant comparisons at the boundary, signed/unsigned constant "
+        "arithmetic, signed zeros, tail calls, promotable slots in loops), 8 C front-end modules, G-IR generated modules (6 quick / 60 "
+        "thorough) of which 2/3 are pessimised (x+0, x*1, constant expressions with boundary operands whose value is subtracted again, "
+        "constant conditional jumps with a dead arm sharing the successor, values and phis demoted to stack slots); pipelines: each of "
+        "the 9 passes alone and api.optimize at 0/1/2/s; 2-3 argument vectors per entry (boundary biased). distinct = distinct "
+        "(module, pipeline, entry, arguments); non-trivial = the pipeline changed the module")
+TRUSTED = [
+    "Spec.IR reference semantics (notes/IR.md) and its S-expression reader Spec.IRParse",
+    "harness/irser.py (ppci objects -> text) and harness/c02_ir.py (text -> ppci objects via the public constructors, alpha-normal form, pessimiser, mid-module construction for constant folding)",
+    "hand models Model.Opt of the 7 passes (tied by differential run on every check, not proved)",
+    "Model.OptCheck.computeDoms is NOT trusted: its result is checked by ssaCheck, and the proofs use only the checked facts",
+]
+ASSUMPTIONS = [
+    "a run is 'defined' iff Spec.IR.exec returns .ok (no UB, no use of an undefined value, nothing unsupported such as inline asm, fuel sufficient); only defined runs are compared / covered by the theorems",
+    "api.optimize runs the same pass list for levels 1, 2 and s (checked by reading ppci/api.py); level 0 is the identity",
+    "address-dependent programs (pointer values observed as integers) are outside the comparison",
+]
 
 FUEL = 60000
 WORKERS = int(os.environ.get("C02_WORKERS", "4"))
@@ -510,13 +551,16 @@ def drive(ctx, scripts):
 
 
 def check(ctx):
-    pipelines = SINGLE + LEVELS
-    inputs = [(f"corpus:{n}", t, None, fx) for n, t, fx in CORPUS]
-    inputs += [(tag, text, only, None) for tag, text, only in c_texts()]
+    # api.optimize runs the same pass list for the levels 1, 2 and s: all of them on the corpus, in the thorough
+    # tier on everything; the quick tier runs -O2 only on the larger inputs
+    every = SINGLE + LEVELS
+    some = every if ctx.thorough else SINGLE + ["O2"]
+    inputs = [(f"corpus:{n}", t, None, fx, every) for n, t, fx in CORPUS]
+    inputs += [(tag, text, only, None, some) for tag, text, only in c_texts()]
     ngen = 60 if ctx.thorough else 6
-    inputs += [(tag, text, None, None) for tag, text, _ in gen_texts(ctx, ngen)]
+    inputs += [(tag, text, None, None, some) for tag, text, _ in gen_texts(ctx, ngen)]
     scripts = []
-    for tag, text, only, fixed in inputs:
+    for tag, text, only, fixed, pipelines in inputs:
         r = process(ctx, tag, text, only, fixed, pipelines)
         if r is not None:
             scripts.append(r)
